@@ -142,6 +142,14 @@ func genC05(r *Rng, tier string, idx int) *Plan {
 	}
 	at := r.Intn(len(p.Ops) + 1)
 	p.Ops = append(p.Ops[:at], append(extra, p.Ops[at:]...)...)
+	if idx%3 == 2 {
+		// the provider cannot be reached / fails during a refresh: the redirect that follows must still destroy
+		// the presented session
+		for i := 0; i < 2; i++ {
+			p.Faults = append(p.Faults, Fault{Site: "idp.token", Nth: r.Range(2, 6), Kind: r.Pick([]string{"reset-before", "500", "reset-after", "503"})})
+		}
+		p.Faults = append(p.Faults, Fault{Site: "net.dial", Nth: r.Range(3, 8), Kind: "refused"})
+	}
 	return p
 }
 
